@@ -42,8 +42,8 @@ CFLAGS = ["-std=gnu11", "-DHAVE_CONFIG_H", "-D_POSIX_C_SOURCE=200809L", "-D_XOPE
           "-D_DEFAULT_SOURCE", "-D_GNU_SOURCE", "-w", "-g", "-O1"]
 HOOKS = ["-DECHSE_VERIF"]      # only the harness that provides echse_verif_line() enables the guarded hook
 # left shifts of negative ints (pack_cd, unpack_cd) are defined by gcc ("GCC does not use the latitude given in C99 and
-# C11 only to treat certain aspects of signed << as undefined"); the shift check would abort on every BYDAY=-1SU
-SAN = ["-fsanitize=address,undefined", "-fno-sanitize=shift", "-fno-sanitize-recover=all", "-fno-omit-frame-pointer"]
+# C11 only to treat certain aspects of signed << as undefined"); the shift-base check would abort on every BYDAY=-1SU; shift counts out of range (shift-exponent) are checked
+SAN = ["-fsanitize=address,undefined", "-fno-sanitize=shift-base", "-fno-sanitize-recover=all", "-fno-omit-frame-pointer"]
 
 LIB_SOURCES = ["instant.c", "range.c", "dt-strpf.c", "hash.c", "intern.c", "state.c",
                "task.c", "strlst.c", "bufpool.c", "event.c", "evstrm.c", "evical.c", "evrrul.c",
